@@ -107,7 +107,7 @@ class Worker:
             self.kill()
 
 
-def run_pool(prop, cases, jobs, deadline, env=None, progress=True, stop_after_viol=None):
+def run_pool(prop, cases, jobs, deadline, env=None, progress=True, stop_after_viol=None, counts=None):
     q: queue.Queue = queue.Queue()
     for c in cases:
         q.put(c)
@@ -132,7 +132,8 @@ def run_pool(prop, cases, jobs, deadline, env=None, progress=True, stop_after_vi
             r["_case"] = c
             with lock:
                 results.append(r)
-                if stop_after_viol and sum(1 for x in results if x.get("viol")) >= stop_after_viol:
+                # only violations that are not open known findings count towards the early stop
+                if stop_after_viol and sum(1 for x in results if (counts(x) if counts else x.get("viol"))) >= stop_after_viol:
                     stop.set()
                 # a run drowning in aborted cases is inconclusive whatever follows
                 if len(results) >= 400 and len(results) % 50 == 0:
@@ -199,7 +200,10 @@ def main(argv=None):
     # once this many cases have reported violations the verdict cannot change any more: stop feeding
     # (keeps runs against badly broken trees short; never triggers on a tree where the property holds)
     stop_after = int(os.environ.get("VERIF_STOP_AFTER", "60"))
-    results = run_pool(prop, cases, args.jobs, deadline, env=env, stop_after_viol=stop_after)
+    def _unlisted(r):
+        return any(classify(prop, v["key"], known) is None for v in (r.get("viol") or []))
+
+    results = run_pool(prop, cases, args.jobs, deadline, env=env, stop_after_viol=stop_after, counts=_unlisted)
     if len(results) < len(cases):
         print(f"[{prop}] stopped early after {len(results)}/{len(cases)} cases: {stop_after} cases with violations")
 
